@@ -94,6 +94,11 @@ def c09_swap(res, res_swapped, rec):
         scale = max(float(np.max(np.abs(b))), 1e-300)
         if name == "coh":
             e = float(np.max(np.abs(a - b)))
+        elif name == "Gxy->conj":
+            # the rounding of an averaged cross-product scales with sqrt(Gxx*Gyy), not with its own
+            # (for incoherent channels arbitrarily smaller) magnitude
+            nat = np.sqrt(np.abs(np.asarray(res.Gxx)) * np.abs(np.asarray(res.Gyy)))
+            e = float(np.max(np.abs(a - b) / np.maximum(np.maximum(np.abs(b), nat), 1e-300))) if a.size else 0.0
         else:
             e = float(np.max(relerr(a, b, floor=1e-13 * scale)))
         rec.ratio("swap_err_over_1e-12", e / 1e-12)
